@@ -25,9 +25,7 @@ import copy
 import itertools
 import re
 
-import dendropy
 from dendropy import Taxon, TaxonNamespace
-from dendropy.utility import error as dperror
 
 from mc import budget
 
